@@ -134,7 +134,10 @@ def parse_trace(path):
                 try:
                     ret = int(rm.group(1), 0)
                 except ValueError:
-                    ret = None
+                    # "= ?": the thread was killed inside the call
+                    events.append(dict(tid=tid, name=name, args=args, ret=None, errno=None,
+                                       injected=False, unfinished=True, line=lineno))
+                    continue
                 if ret is not None and ret < 0:
                     errno = rm.group(2)
                 injected = '(INJECTED)' in rm.group(3)
@@ -664,6 +667,12 @@ def check_trace(sc, cwd, events, news, enumerate_states=True):
                     if enumerate_states:
                         check_point('return-err', idx)
                 cur_new = None
+            continue
+        if driver_tid is None:
+            # before the first operation: process start-up (and child processes
+            # spawned by package initialisation); nothing touches the scenario
+            # directory yet
+            m.count('syscalls_before_first_operation')
             continue
         if ev["unfinished"]:
             # entered, never returned (process killed at syscall entry): not
